@@ -12,9 +12,24 @@ import (
 // ---- naming ----
 
 // fname is a stable qualified name: "midix.(*MIDIWriter).Note", "math.Round", "cmd.init$1".
+// funcAlias gives stable names to the anonymous cobra handlers of package cmd: cmd.init$7 -> cmd.writeCmd.RunE.
+var funcAlias = map[*ssa.Function]string{}
+
 func fname(fn *ssa.Function) string {
 	if fn == nil {
 		return "<nil>"
+	}
+	if a, ok := funcAlias[fn]; ok {
+		return a
+	}
+	if p := fn.Parent(); p != nil {
+		if pa, ok := funcAlias[p]; ok {
+			// nested closure of an aliased handler: keep its ordinal suffix
+			full := fn.Name()
+			if i := strings.LastIndex(full, "$"); i >= 0 {
+				return pa + full[i:]
+			}
+		}
 	}
 	s := stripTypeArgs(fn.String())
 	s = strings.ReplaceAll(s, modulePath+"/", "")
@@ -127,6 +142,12 @@ func calleeName(cc *ssa.CallCommon) string {
 	}
 	if b, ok := cc.Value.(*ssa.Builtin); ok {
 		return "builtin." + b.Name()
+	}
+	// call through a package-level function variable (e.g. errorx.Invalid = wrapFunc(...))
+	if u, ok := cc.Value.(*ssa.UnOp); ok && u.Op == token.MUL {
+		if g, ok := u.X.(*ssa.Global); ok && g.Pkg != nil {
+			return short(g.Pkg.Pkg.Path()) + "." + g.Name()
+		}
 	}
 	return ""
 }
